@@ -12,6 +12,7 @@ import (
 	"sort"
 
 	"github.com/ethereum/go-ethereum/common"
+	"github.com/ethereum/go-ethereum/core"
 	"github.com/ethereum/go-ethereum/core/state"
 	"github.com/ethereum/go-ethereum/core/tracing"
 	"github.com/ethereum/go-ethereum/core/types"
@@ -49,6 +50,9 @@ type World struct {
 	Number   uint64
 	Time     uint64
 	Merged   bool // post-merge rule set (Random set)
+	// BlockGasLimit, when non-zero, is what GASLIMIT reports on EVMs built by NewEVM (CallEVM /
+	// CreateEVM); otherwise (and always on the runtime.* API paths) it equals the message's gas.
+	BlockGasLimit uint64
 
 	db   state.Database
 	root common.Hash
@@ -293,7 +297,53 @@ func (w *World) Execute(sdb *state.StateDB, code, input []byte, gas uint64, valu
 // NewEVM builds an EVM exactly like runtime.Call does, but with the world's faithful rule
 // set (pre-merge rule sets keep Random == nil).
 func (w *World) NewEVM(sdb *state.StateDB, gas uint64, tracer *tracing.Hooks) *vm.EVM {
-	return runtime.NewEnv(w.Config(sdb, gas, nil, tracer))
+	evm := runtime.NewEnv(w.Config(sdb, gas, nil, tracer))
+	if w.BlockGasLimit != 0 {
+		evm.Context.GasLimit = w.BlockGasLimit
+	}
+	return evm
+}
+
+// NewEVMHooked is NewEVM with the state wrapped by state.NewHookedState, so that the tracer also
+// receives OnBalanceChange / OnNonceChange / OnCodeChange / OnStorageChange / OnLog (the runtime
+// package never wraps the state). The block and tx context are built as runtime.NewEnv does.
+func (w *World) NewEVMHooked(sdb *state.StateDB, gas uint64, tracer *tracing.Hooks) *vm.EVM {
+	cfg := w.Config(sdb, gas, nil, tracer)
+	bc := vm.BlockContext{
+		CanTransfer: core.CanTransfer, Transfer: core.Transfer, GetHash: cfg.GetHashFn, Coinbase: cfg.Coinbase,
+		BlockNumber: cfg.BlockNumber, Time: cfg.Time, Difficulty: cfg.Difficulty, GasLimit: cfg.GasLimit,
+		BaseFee: cfg.BaseFee, BlobBaseFee: cfg.BlobBaseFee, Random: cfg.Random, CostPerStateByte: params.CostPerStateByte,
+	}
+	if w.BlockGasLimit != 0 {
+		bc.GasLimit = w.BlockGasLimit
+	}
+	evm := vm.NewEVM(bc, state.NewHookedState(sdb, tracer), cfg.ChainConfig, cfg.EVMConfig)
+	evm.SetTxContext(vm.TxContext{Origin: cfg.Origin, GasPrice: uint256.MustFromBig(cfg.GasPrice), BlobHashes: cfg.BlobHashes})
+	return evm
+}
+
+// CallEVMHooked is CallEVM on an EVM built by NewEVMHooked.
+func (w *World) CallEVMHooked(sdb *state.StateDB, to common.Address, input []byte, gas uint64, value *uint256.Int, tracer *tracing.Hooks) (r Result) {
+	if value == nil {
+		value = new(uint256.Int)
+	}
+	guard(&r, func() {
+		evm := w.NewEVMHooked(sdb, gas, tracer)
+		rules := w.Rules()
+		sdb.Prepare(rules, Origin, Coinbase, &to, vm.ActivePrecompiles(rules), nil)
+		limit := gas
+		if rules.IsAmsterdam {
+			limit = min(gas, params.MaxTxGas)
+		}
+		var res vm.GasBudget
+		r.Ret, res, r.Err = evm.Call(Origin, to, input, vm.NewGasBudget(limit, gas-limit), value)
+		r.Leftover = res.ExecutionGas
+		evm.Release()
+	})
+	if r.Panic == nil {
+		w.finish(sdb, &r)
+	}
+	return r
 }
 
 // CallEVM replicates runtime.Call on an EVM built by NewEVM: Prepare, then evm.Call from
